@@ -67,8 +67,12 @@ bool stampedNow(void* world, uint64_t entity, uint32_t component_id) {
     const auto id = ComponentId::make(component_id);
     if (!a->hasComponent(id)) return false;
     const auto idx = ArchetypeEntityIndex::make(verif::Access::locIndex(m, ent(entity)));
-    return a->getComponentVersion(idx, id) == static_cast<World*>(world)->version();
+    // bumpVersion() before the run, applyFilter stamps with that version, BaseJob::run then increments once more
+    return a->getComponentVersion(idx, id).toInt() + 1u == static_cast<World*>(world)->version().toInt();
 }
+
+// harness instrumentation around a job run: makes every earlier stamp strictly older than what the run writes
+void bumpVersion(void* world) { static_cast<World*>(world)->incrementVersion(); }
 
 void setStorageCap(uint32_t cap) { mustache::verif::storage_chunk_capacity = cap; }
 }
